@@ -76,6 +76,26 @@ func verifC12CLI(c *drv.Ctx) {
 		{name: "socks, real probe on the virtual network (proxy, silent peer, split reply, refused)", args: []string{"socks", "-p", "1080-1081", "-w", "2", "--timeout", "2s", "10.0.1.0/31"}, kind: "app", workers: 2, bound: 0, tbound: 1, realSocks: true},
 		{name: "docker small", args: []string{"docker", "-p", "2375", "-w", "1", "10.0.1.1/32"}, kind: "app", workers: 1, bound: 1, tbound: 2},
 	}
+	// every command (each has its own RunE and builds its own context): a two-probe scan
+	for i := range c01cmds {
+		cc := &c01cmds[i]
+		k := c12cliCase{name: "entry point: " + cc.name, args: append([]string{}, cc.args...), bound: 0, tbound: 1}
+		switch {
+		case cc.kind == "app":
+			k.kind, k.workers = "app", 1
+			k.args = append(k.args, "-p", "80-81", "-w", "1", "10.0.1.1/32")
+		case cc.ports:
+			k.kind, k.stdin, k.reply = "packet", cacheA, cc
+			k.args = append(k.args, "-p", "80-81", "10.0.1.1/32")
+		default:
+			k.kind, k.reply = "packet", cc
+			if cc.kind != "arp" {
+				k.stdin = cacheA
+			}
+			k.args = append(k.args, "10.0.1.0/31")
+		}
+		cases = append(cases, k)
+	}
 	p201, _ := c03manyPorts(201)
 	cases[5].args = []string{"tcp", "syn", "-p", p201, "10.0.1.1/32"}
 	c.R.Rule = "whole command runs on the virtual wire: " + func() string {
